@@ -35,6 +35,11 @@ TRACE_SPEC = os.path.join(SPECS, "xref", "XRefTrace.tla")
 EOLS = [b"\n", b"\r\n", b"\r"]
 
 
+def _special_w(w, variant):
+    """/W with a zero-width field whose default applies: type (default 1) or generation (default 0)"""
+    return (0,) + tuple(w[1:]) if variant == 1 else (w[0], w[1], 0)
+
+
 def realise(hist, eol=b"\n", xref_w=(1, 4, 2), zero_type_width=False):
     """zero_type_width: cross-reference streams that list only type-1 entries (a later revision, no object stream,
     one /Index range per run so that no free filler entry is needed) are written with /W [0 n m] - the type field has
@@ -53,8 +58,9 @@ def realise(hist, eol=b"\n", xref_w=(1, 4, 2), zero_type_width=False):
                              split_index=r["split"], objstm_id=r["stmid"] or None, xref_id=r["xid"] or None,
                              root=Ref(1) if k == 1 else None, info={"Rev": k} if (k == 1 or r["newroot"]) else None,
                              eol=eol,
-                             xref_w=((0,) + tuple(xref_w[1:])) if (zero_type_width and k > 1 and r["form"] == "stream"
-                                                                    and not r["packed"] and r["split"]) else xref_w))
+                             omit_index=bool(zero_type_width),
+                             xref_w=_special_w(xref_w, zero_type_width) if (zero_type_width and k > 1 and r["form"] == "stream"
+                                                                             and not r["packed"] and r["split"]) else xref_w))
     return build(revs)[0]
 
 
@@ -108,7 +114,7 @@ def direction_a1(ck, dev):
             variant += 1
             eol = EOLS[variant % 3]
             w = [(1, 4, 2), (1, 2, 2), (2, 3, 2)][(variant // 3) % 3]
-            zw = (variant // 9) % 2 == 1
+            zw = (variant // 9) % 3          # 0: plain; 1: /W [0 n m] + default /Index; 2: /W [t n 0] + default /Index
             hk = (json.dumps(r["hist"], sort_keys=True), eol, w, zw)
             data = cache.get(hk)
             if data is None:
@@ -370,7 +376,7 @@ def direction_b(ck):
             ck.note("sample %s not recorded: %s" % (fn, type(e).__name__))
     for i in range(3 if ck.tier == "quick" else 25):
         hist = many_revision_doc(ck.seed * 100 + i)
-        data = realise(hist, EOLS[i % 3], zero_type_width=(i % 2 == 1))
+        data = realise(hist, EOLS[i % 3], zero_type_width=i % 3)
         recs.append(record_lookups(data, i % 2 == 0, i, "generated 40-revision document #%d" % i, hist=hist))
     recs = [r for r in recs if r["events"]]
     tf = os.path.join(ck.tmp, "c02_traces.json")
